@@ -497,3 +497,9 @@ def check(run):
     run.rule('R2', r2_credentials, 'credentials only for configured origins, origin echoed, no "*" inside configured sets', floor=5)
     run.rule('R3', r3_withdraw, 'preflight without Allow withdraws every grant; Allow removed on both preflight branches', floor=7)
     run.rule('R4', r4_approve, 'approve branch conditions, cors_enable wiring, Allow sources', floor=16)
+    # the preflight is approved only under req_succeeded: the flag the apps
+    # hand to process_response must be true only after an exchange in which
+    # nothing was raised (shared with C03 R2)
+    from . import c03 as _c03
+
+    run.rule('R5', _c03.r2_discipline, 'the success flag handed to process_response is true only when no exception left the request cycle (shared with C03 R2)', floor=20)
